@@ -229,7 +229,7 @@ func genC11(repo string) (string, error) {
 	}
 	walk(wr.Body.List, nil)
 	sb.WriteString("def writeEndAssignments : List String := " + LeanStrList(endAssigns) + "\n")
-	sb.WriteString("def writeCalls : List String := " + LeanStrList(CallSeq(wr)) + "\n")
+	sb.WriteString("def writeCalls : List String := " + LeanStrList(c11CallSeq(wr)) + "\n")
 
 	// ---- argument order of the Aggregate calls in write() and merge()
 	aggArgs := func(fd *ast.FuncDecl) []string {
@@ -263,7 +263,7 @@ func genC11(repo string) (string, error) {
 	} else {
 		return "", fmt.Errorf("getCurrentValue does not start with its range guard")
 	}
-	sb.WriteString("def compactCalls : List String := " + LeanStrList(CallSeq(FindFunc(fw, "", "compact"))) + "\n")
+	sb.WriteString("def compactCalls : List String := " + LeanStrList(c11CallSeq(FindFunc(fw, "", "compact"))) + "\n")
 
 	// ---- memdb: created time, Load order, family filter order
 	_, dbf, err := ParseFile(repo, "tsdb/memdb/database.go")
@@ -278,22 +278,74 @@ func genC11(repo string) (string, error) {
 		return true
 	})
 	sb.WriteString("def memdbCreatedTimeExpr : String := " + strconv.Quote(created) + "\n")
+	// metric block layout (tsdb/tblstore/metricsdata/flusher.go): the statements of the high-key
+	// branch of FlushSeries in source order, the deferred re-base of Level4, and the bases the
+	// offsets are taken against
+	_, flf, err := ParseFile(repo, "tsdb/tblstore/metricsdata/flusher.go")
+	if err != nil {
+		return "", err
+	}
+	var hkStmts, deferStmts []string
+	rebase := false
+	if fs := FindFunc(flf, "flusher", "FlushSeries"); fs != nil && fs.Body != nil {
+		for _, st := range fs.Body.List {
+			switch x := st.(type) {
+			case *ast.DeferStmt:
+				if fl, ok := x.Call.Fun.(*ast.FuncLit); ok {
+					for _, d := range fl.Body.List {
+						deferStmts = append(deferStmts, c11Text(d))
+					}
+				}
+			case *ast.IfStmt:
+				if c11Text(x.Cond) != "highKey != w.Level3.highKey" {
+					continue
+				}
+				footerSeen := false
+				for _, b := range x.Body.List {
+					t := c11Text(b)
+					if ifs, ok := b.(*ast.IfStmt); ok && ifs.Init != nil {
+						t = c11Text(ifs.Init) // `if err := w.flushLevel2SeriesBucket(); err != nil {return err}`
+					}
+					hkStmts = append(hkStmts, t)
+					if strings.Contains(t, "flushLevel2SeriesBucket()") {
+						footerSeen = true
+					}
+					if footerSeen && t == "w.Level4.startAt = int(w.kvWriter.Size())" {
+						rebase = true
+					}
+				}
+			}
+		}
+	}
+	sb.WriteString("def flushSeriesHighKeyBranch : List String := " + LeanStrList(hkStmts) + "\n")
+	sb.WriteString("def flushSeriesDeferred : List String := " + LeanStrList(deferStmts) + "\n")
+	sb.WriteString("def rebaseLevel4AfterBucketFooter : Bool := " + strconv.FormatBool(rebase) + "\n")
+	var bases []string
+	for _, fn := range []string{"flushField", "FlushSeries", "flushLevel2SeriesBucket"} {
+		ast.Inspect(FindFunc(flf, "flusher", fn), func(n ast.Node) bool {
+			if be, ok := n.(*ast.BinaryExpr); ok && be.Op == token.SUB && strings.Contains(c11Text(be.X), "kvWriter.Size()") {
+				bases = append(bases, fn+": "+c11Text(be))
+			}
+			return true
+		})
+	}
+	sb.WriteString("def flusherOffsetBases : List String := " + LeanStrList(bases) + "\n")
 	_, tsi, err := ParseFile(repo, "tsdb/memdb/time_series_index.go")
 	if err != nil {
 		return "", err
 	}
-	sb.WriteString("def indexLoadCalls : List String := " + LeanStrList(CallSeq(FindFunc(tsi, "timeSeriesIndex", "Load"))) + "\n")
+	sb.WriteString("def indexLoadCalls : List String := " + LeanStrList(c11CallSeq(FindFunc(tsi, "timeSeriesIndex", "Load"))) + "\n")
 	_, idb, err := ParseFile(repo, "tsdb/memdb/index_database.go")
 	if err != nil {
 		return "", err
 	}
-	sb.WriteString("def indexCleanupCalls : List String := " + LeanStrList(CallSeq(FindFunc(idb, "indexDatabase", "Cleanup"))) + "\n")
+	sb.WriteString("def indexCleanupCalls : List String := " + LeanStrList(c11CallSeq(FindFunc(idb, "indexDatabase", "Cleanup"))) + "\n")
 	_, df, err := ParseFile(repo, "tsdb/data_family.go")
 	if err != nil {
 		return "", err
 	}
-	sb.WriteString("def familyFilterCalls : List String := " + LeanStrList(CallSeq(FindFunc(df, "dataFamily", "Filter"))) + "\n")
-	sb.WriteString("def familyMemoryFilterCalls : List String := " + LeanStrList(CallSeq(FindFunc(df, "dataFamily", "memoryFilter"))) + "\n")
+	sb.WriteString("def familyFilterCalls : List String := " + LeanStrList(c11CallSeq(FindFunc(df, "dataFamily", "Filter"))) + "\n")
+	sb.WriteString("def familyMemoryFilterCalls : List String := " + LeanStrList(c11CallSeq(FindFunc(df, "dataFamily", "memoryFilter"))) + "\n")
 
 	// ---- aggregation: the down-sampling loop and AggregateBySlot
 	_, ds, err := ParseFile(repo, "aggregation/down_sampling_agg.go")
@@ -320,7 +372,7 @@ func genC11(repo string) (string, error) {
 	if err != nil {
 		return "", err
 	}
-	sb.WriteString("def fieldAggregateCalls : List String := " + LeanStrList(CallSeq(FindFunc(fa, "fieldAggregator", "Aggregate"))) + "\n")
+	sb.WriteString("def fieldAggregateCalls : List String := " + LeanStrList(c11CallSeq(FindFunc(fa, "fieldAggregator", "Aggregate"))) + "\n")
 
 	// ---- series/field/type.go tables
 	_, tf, err := ParseFile(repo, "series/field/type.go")
@@ -540,8 +592,8 @@ func genC11(repo string) (string, error) {
 	}
 	sb.WriteString("def expressionEvalCases : List String := " + LeanStrList(exCases) + "\n")
 	sb.WriteString("def expressionEvalBodies : List String := " + LeanStrList(exBodies) + "\n")
-	sb.WriteString("def expressionFuncCallCalls : List String := " + LeanStrList(CallSeq(FindFunc(ef, "expression", "funcCall"))) + "\n")
-	sb.WriteString("def expressionBinaryEvalCalls : List String := " + LeanStrList(CallSeq(FindFunc(ef, "expression", "binaryEval"))) + "\n")
+	sb.WriteString("def expressionFuncCallCalls : List String := " + LeanStrList(c11CallSeq(FindFunc(ef, "expression", "funcCall"))) + "\n")
+	sb.WriteString("def expressionBinaryEvalCalls : List String := " + LeanStrList(c11CallSeq(FindFunc(ef, "expression", "binaryEval"))) + "\n")
 	dfp := FindFunc(tf, "Type", "GetDefaultFuncFieldParams")
 	if dfp == nil {
 		return "", fmt.Errorf("GetDefaultFuncFieldParams not found")
@@ -607,7 +659,7 @@ func genC11(repo string) (string, error) {
 	if err != nil {
 		return "", err
 	}
-	sb.WriteString("def segmentGetDataFamiliesCalls : List String := " + LeanStrList(CallSeq(FindFunc(sg, "segment", "GetDataFamilies"))) + "\n")
+	sb.WriteString("def segmentGetDataFamiliesCalls : List String := " + LeanStrList(c11CallSeq(FindFunc(sg, "segment", "GetDataFamilies"))) + "\n")
 	_, rd, err := ParseFile(repo, "tsdb/tblstore/metricsdata/reader.go")
 	if err != nil {
 		return "", err
@@ -625,7 +677,7 @@ func genC11(repo string) (string, error) {
 		return true
 	})
 	sb.WriteString("def readSeriesDataSingleField : String := " + strconv.Quote(single) + "\n")
-	fileFilterCalls := CallSeq(FindFunc(df, "dataFamily", "fileFilter"))
+	fileFilterCalls := c11CallSeq(FindFunc(df, "dataFamily", "fileFilter"))
 	sb.WriteString("def familyFileFilterCalls : List String := " + LeanStrList(fileFilterCalls) + "\n")
 
 	// ---- which variant of the repaired statements the source has (selects the model variant)
@@ -648,13 +700,26 @@ func genC11(repo string) (string, error) {
 	// NewMemoryDatabase: created time from the process-unique generator
 	flag("fixUniqueCreated", created == "nextCreatedTime()" && FindFunc(dbf, "", "nextCreatedTime") != nil)
 	// dataFamily.memoryFilter / fileFilter ignore a source's not-found
-	flag("fixNotFoundIgnored", has(CallSeq(FindFunc(df, "dataFamily", "memoryFilter")), "errors.Is") && has(fileFilterCalls, "errors.Is"))
+	flag("fixNotFoundIgnored", has(c11CallSeq(FindFunc(df, "dataFamily", "memoryFilter")), "errors.Is") && has(fileFilterCalls, "errors.Is"))
 	// readSeriesData: the one-field fast path maps by query field index
 	flag("fixSingleFieldByIndex", single != "" && !strings.Contains(single, "seriesIdx, 0,") && strings.Contains(single, "seriesIdx, queryIdx,"))
 	// fieldAggregator.Aggregate: by the primitive series' own agg type
-	flag("fixAggregateByType", has(CallSeq(FindFunc(fa, "fieldAggregator", "Aggregate")), "aggregateBySlotOfType") && has(CallSeq(FindFunc(fa, "fieldAggregator", "Aggregate")), "pIt.AggType"))
+	flag("fixAggregateByType", has(c11CallSeq(FindFunc(fa, "fieldAggregator", "Aggregate")), "aggregateBySlotOfType") && has(c11CallSeq(FindFunc(fa, "fieldAggregator", "Aggregate")), "pIt.AggType"))
 	// segment.GetDataFamilies: family range from CalcFamilyTime of the query start/end
-	sgc := CallSeq(FindFunc(sg, "segment", "GetDataFamilies"))
+	sgc := c11CallSeq(FindFunc(sg, "segment", "GetDataFamilies"))
 	flag("fixMonthFamilyTime", has(sgc, "calc.CalcFamilyTime") && !has(sgc, "calc.CalcFamilyStartTime"))
 	return sb.String(), nil
+}
+
+// c11CallSeq is CallSeq without the verification yield points (instrumentation, no-ops without
+// the build tag verif).
+func c11CallSeq(fn *ast.FuncDecl) []string {
+	var out []string
+	for _, c := range CallSeq(fn) {
+		if strings.HasSuffix(c, "verifhook.Yield") {
+			continue
+		}
+		out = append(out, c)
+	}
+	return out
 }
